@@ -31,7 +31,7 @@ var ownDiscipline = map[string]string{
 	"serverConn.maxRequestBodySize": "init-only", "serverConn.maxRequestTime": "init-only", "serverConn.pingInterval": "init-only",
 	"serverConn.maxIdleTime": "init-only", "serverConn.st": "init-only", "serverConn.debug": "init-only", "serverConn.logger": "init-only",
 	"serverConn.writer": "init-only", "serverConn.reader": "init-only", "serverConn.writeStop": "init-only", "serverConn.handlerDone": "init-only",
-	"serverConn.handlerStop": "init-only", "serverConn.closer": "init-only", "serverConn.writeGone": "init-only",
+	"serverConn.handlerStop": "init-only", "serverConn.closer": "init-only", "serverConn.writeGone": "init-only", "serverConn.queueLck": "sync",
 	"serverConn.pingTimer": "init-only", "serverConn.maxRequestTimer": "init-only", "serverConn.maxIdleTimer": "init-only",
 	"serverConn.br": "owner:conn", "serverConn.clientS": "owner:go:(*serverConn).Serve$3",
 	"serverConn.bw":            "owner:go:(*serverConn).Serve$2",
@@ -39,9 +39,11 @@ var ownDiscipline = map[string]string{
 	"serverConn.dec":           "owner:go:(*serverConn).Serve$3",
 	"serverConn.clientWindow":  "owner:go:(*serverConn).Serve$3",
 	"serverConn.currentWindow": "owner:go:(*serverConn).Serve$3",
-	"serverConn.lastID":        "owner:go:(*serverConn).Serve$3",
-	"serverConn.discard":       "owner:go:(*serverConn).Serve$3",
-	"serverConn.state":         "atomic", "serverConn.closeRef": "atomic", "serverConn.writeLimit": "atomic",
+	// written (atomically) by the stream loop only, which may also read it
+	// plainly; any other goroutine reads it atomically (writeGoAway)
+	"serverConn.lastID":  "published:go:(*serverConn).Serve$3",
+	"serverConn.discard": "owner:go:(*serverConn).Serve$3",
+	"serverConn.state":   "atomic", "serverConn.closeRef": "atomic", "serverConn.writeLimit": "atomic",
 	// Conn
 	"Conn.c": "init-only", "Conn.maxWindow": "init-only", "Conn.current": "init-only", "Conn.disableAcks": "init-only",
 	"Conn.winCh": "init-only", "Conn.in": "init-only", "Conn.out": "init-only", "Conn.done": "init-only",
@@ -76,20 +78,20 @@ var ownDiscipline = map[string]string{
 
 // functions whose callers hold a lock for them (each call site is re-checked).
 var ownCallerHolds = map[string]string{
-	"(*Conn).writeData":       "Conn.bwLck",
-	"(*Client).createConn":    "Client.lck",
-	"(*Conn).closeBodyStream": "Ctx.lck",
-	"(*Conn).readStreamOwned": "Ctx.lck",
-	"(*pendingBody).hasMore":  "Conn.sendLck",
+	"(*Conn).writeData":        "Conn.bwLck",
+	"(*Conn).writeHeaderBlock": "Conn.bwLck",
+	"(*Client).createConn":     "Client.lck",
+	"(*Conn).closeBodyStream":  "Ctx.lck",
+	"(*Conn).readStreamOwned":  "Ctx.lck",
+	"(*pendingBody).hasMore":   "Conn.sendLck",
 }
 
 // reviewed single accesses: "field|function|kind" -> reason.
 var ownReviewed = map[string]string{
-	"serverConn.lastID|(*serverConn).writeGoAway|read": "read only under strm != 0; checked side condition: every call from outside the stream loop passes the literal 0",
-	"serverConn.bw|(*serverConn).Handshake|read":       "before the write loop exists",
-	"Client.conns|ConfigureClient|write":               "set-up before the client is published",
-	"Ctx.Request|(*Conn).writeRequest|read":            "under ctx.acquire(); released explicitly before sendPending",
-	"Ctx.Err|(*Ctx).resolve|read":                      "channel value read for a send; Err is never reassigned after the pool constructor",
+	"serverConn.bw|(*serverConn).Handshake|read": "before the write loop exists",
+	"Client.conns|ConfigureClient|write":         "set-up before the client is published",
+	"Ctx.Request|(*Conn).writeRequest|read":      "under ctx.acquire(); released explicitly before sendPending",
+	"Ctx.Err|(*Ctx).resolve|read":                "channel value read for a send; Err is never reassigned after the pool constructor",
 }
 
 func rootPrefixMatch(roots map[string]bool, want string) (bool, []string) {
@@ -258,6 +260,25 @@ func ruleAccessDiscipline(p *Prog, r *Out) {
 		case strings.HasPrefix(disc, "mutex:"):
 			m := strings.TrimPrefix(disc, "mutex:")
 			note(key, acc.Locks[m], pos, fmt.Sprintf("%s is %s in %s without holding %s (protection here: %s); the field is guarded by that mutex everywhere else, so this access races with the goroutines that take it (reached from %v)", f, acc.Kind, fn, m, acc.Prot, rl))
+		case strings.HasPrefix(disc, "published:"):
+			want := resolve(strings.TrimPrefix(disc, "published:"))
+			onOwner := false
+			if len(roots) > 0 {
+				onOwner, _ = rootPrefixMatch(roots, want)
+			}
+			isStore := strings.Contains(acc.Detail, "Store") || strings.Contains(acc.Detail, "Add") || strings.Contains(acc.Detail, "Swap")
+			switch {
+			case len(roots) == 0:
+				note(key, true, pos, "unreachable from any root")
+			case acc.Kind == "atomic" && !isStore:
+				note(key, true, pos, "")
+			case acc.Kind == "atomic" && isStore:
+				note(key, onOwner, pos, fmt.Sprintf("%s is published by the goroutine %s alone, but %s stores to it and is also reached from %v: two writers", f, want, fn, rl))
+			case acc.Kind == "read":
+				note(key, onOwner, pos, fmt.Sprintf("%s is written atomically by the goroutine %s; a plain read of it in %s, which is also reached from %v, races with those writes (only the writer itself may read it plainly)", f, want, fn, rl))
+			default:
+				note(key, false, pos, fmt.Sprintf("%s is read atomically from other goroutines, so a plain %s of it in %s races with them: every write has to be atomic", f, acc.Kind, fn))
+			}
 		case strings.HasPrefix(disc, "owner:"):
 			want := resolve(strings.TrimPrefix(disc, "owner:"))
 			if len(roots) == 0 {
@@ -277,21 +298,6 @@ func ruleAccessDiscipline(p *Prog, r *Out) {
 			r.bad(k, a.pos, a.msg)
 		}
 	}
-	// side condition for serverConn.lastID in writeGoAway
-	okSide := true
-	var offenders []string
-	for _, cs := range p.callsTo("(*serverConn).writeGoAway") {
-		roots := o.rootsAt(p, cs.Instr)
-		only, _ := rootPrefixMatch(roots, streamLoop)
-		if only {
-			continue
-		}
-		if v, ok := constInt(cs.Common.Args[1]); !ok || v != 0 {
-			okSide = false
-			offenders = append(offenders, p.fname(cs.Fn)+" at "+p.ipos(cs.Instr))
-		}
-	}
-	r.check(okSide, "writeGoAway from other goroutines passes stream 0", "?", "lastID is read only on the stream loop", "writeGoAway reads serverConn.lastID when its stream argument is non-zero, and these callers outside the stream loop pass a non-zero stream: "+strings.Join(offenders, "; "))
 }
 
 // locksHeldAt computes the mutexes (and Ctx ownership) held at an instruction.
